@@ -689,7 +689,7 @@ def reference_defs(argv):
 
 
 def undefine_after_define(argv):
-    """names with a -U NAME that follows a -D NAME[=...] on the command line (input part of finding F-C01-2)"""
+    """names with a -U NAME that follows a -D NAME[=...] on the command line (the inputs of the fixed finding F-C01-2)"""
     seen, out = set(), []
     for k, v, _ in du_options(argv):
         name = v.split("=", 1)[0]
@@ -700,14 +700,17 @@ def undefine_after_define(argv):
     return out
 
 
-def is_undef_after_define(case):
-    """classifier of finding F-C01-2: the compile command has a -U NAME after a -D NAME of the same macro, and what the
-    implementation reports is exactly the analysis of the command with its -U options dropped"""
-    return bool(case.get("cmdline")) and any(
-        undefine_after_define(c["argv"]) and c.get("as_if_U_dropped") for c in case["commands"].values())
+# F-C01-2 (-U ignored on compile commands) is fixed in the code (config._UndefineAction): no classifier, nothing is suppressed.
 
 
-CLASSIFIERS.append(("F-C01-2", is_undef_after_define))
+def effective_table(defines):
+    """the macro table a list of -D values leaves: the last definition of each name wins"""
+    table = {}
+    for v in defines:
+        name = v.split("=", 1)[0]
+        table.pop(name, None)
+        table[name] = v
+    return list(table.values())
 
 
 def gcc_cmdline_markers(text, argv):
@@ -781,11 +784,18 @@ def evaluate_cmdline(ctx, drv, impl, root, text, commands, form, use_gcc=True, r
             a = drv.ask({"op": "c11full", "argv": ["u.c" if x == "@FILE@" else x for x in argv], "argv0": c["argv0"]})
             if "ok" in a.get("model", {}) and all(isinstance(d, str) for d in a["model"]["ok"]["defines"]):
                 mrep = drv.ask({"op": "c01", "text": text, "defs": a["model"]["ok"]["defines"]})["model"]
+            # the C11 property-level reference (Lean Extract.extract: definitions in force after -D/-U left to right) must leave the
+            # macro table the GCC-manual reading of the command line leaves (this function's reference, validated against gcc -E below)
+            if a.get("tame") and effective_table(a["spec"]["defines"]) != defs:
+                problems.append(("specgcc", case, f"C11 reference (Extract.extract) leaves {a['spec']['defines']} in force, the GCC-manual reading of "
+                                 f"the -D/-U options leaves {defs} (command: {shown})"))
+            elif a.get("tame") and record:
+                ctx.dist["cmdline:C11-spec == GCC-manual reference"] += 1
         wf = rep is not None and bool(rep["spec"].get("wf")) and not diag
         if mrep is not None:
             same = ("ok" in g and g["ok"] == mrep["ok"]) if "ok" in mrep else ("exc" in g and err_matches(mrep["exc"], g["exc"]))
             c2 = case["commands"][p]
-            c2["as_if_U_dropped"] = bool(same)
+            c2["matches_composed_model"] = bool(same)
         else:
             same = True
         bad = None
